@@ -686,9 +686,10 @@ type c38Stats struct {
 	cmp, matched, multi, tie, ci, unitSens, metachar, empty, plain, tailZero int
 	nsCmp, nsDeny, nsAllowRule, nsUnres, nsUnitSens                          int
 	visibleDiff                                                              int
+	families, siblingDeletes, exactHost                                      int
 }
 
-func (w *bcWorld) check(rng *rand.Rand, st *c38Stats, nReq int) {
+func (w *bcWorld) check(rng *rand.Rand, st *c38Stats, nReq int, extra ...[4]string) {
 	c := w.c
 	aRules, nRules := w.accessRules(), w.nsRules()
 	visA, visN := w.visibleAccess(), w.visibleNs()
@@ -696,11 +697,15 @@ func (w *bcWorld) check(rng *rand.Rand, st *c38Stats, nReq int) {
 		strings.Join(rulesText(visN), "\n") != strings.Join(rulesText(nRules), "\n") {
 		st.visibleDiff++ // diagnostic only; decisions are what the statement is about
 	}
-	for q := 0; q < nReq; q++ {
+	for q := 0; q < nReq+len(extra); q++ {
 		var req [4]string
-		if q%2 == 0 {
+		switch {
+		case q >= nReq:
+			req = extra[q-nReq] // targeted request (exact host of a rule of a prefix-host family)
+			st.exactHost++
+		case q%2 == 0:
 			req = bcGenRequest(rng, aRules)
-		} else {
+		default:
 			req = bcGenRequest(rng, nRules)
 		}
 		class, nsClass := bcAccessClass(aRules, req), bcNsClass(req)
@@ -869,12 +874,93 @@ func (w *bcWorld) reload() {
 	w.hist = append(w.hist, bcOp{Op: "save+reload"})
 }
 
+// bcFamilyPhase builds rule families that differ only in the LAST column (host) with hosts drawn from a prefix
+// chain (h, h0, h1, h10, h11, ...): in the access trie only the last column lets one whole rule be a prefix of
+// another, so a rule node with its own data gets children. Siblings are then deleted one by one, and after every
+// operation (and after a save+reload) the exact host of every rule of the family is requested, in both tables.
+func (w *bcWorld) bcFamilyPhase(rng *rand.Rand, st *c38Stats) {
+	st.families++
+	pick := func(xs ...string) string { return xs[rng.Intn(len(xs))] }
+	base := [3]string{pick("a", "b", "ea", "%"), pick("ab", "e", "b", "%"), pick("a", "b", "ae", "%")}
+	prefix := pick("h", "10.0.0.1", "e", "ab", "h", "b")
+	if rng.Intn(8) == 0 {
+		prefix = "" // the empty host as the prefix rule (requests for it fall into the empty-string classes)
+	}
+	d1, d2 := "0", "1"
+	if rng.Intn(2) == 0 {
+		d1, d2 = "a", "b"
+	}
+	hosts := []string{prefix, prefix + d1, prefix + d2}
+	for _, extra := range []string{prefix + d1 + d1, prefix + d1 + d2, prefix + d2 + d1, prefix + d1 + d2 + d1} {
+		if rng.Intn(3) == 0 {
+			hosts = append(hosts, extra)
+		}
+	}
+	row := func(h string) [4]string { return [4]string{base[0], base[1], base[2], h} }
+	reqFor := func(h string) [4]string {
+		var r [4]string
+		for i := 0; i < 3; i++ {
+			r[i] = strings.ReplaceAll(base[i], "%", "a")
+		}
+		r[3] = h
+		return r
+	}
+	exact := func() [][4]string {
+		var out [][4]string
+		for _, h := range hosts {
+			out = append(out, reqFor(h))
+			if h != "" && rng.Intn(3) == 0 {
+				out = append(out, reqFor(h+"1"), reqFor(h[:len(h)-1]))
+			}
+		}
+		return out
+	}
+	perms := []uint64{1, 2, 4, 8}
+	order := rng.Perm(len(hosts))
+	for k, i := range order {
+		w.accessInsert(row(hosts[i]), perms[(k+rng.Intn(2))%len(perms)])
+		w.nsInsert([4]string{base[0], base[1], pick("a", "b", "%"), hosts[i]})
+		w.check(rng, st, 2, exact()...)
+	}
+	// delete the siblings (never the prefix rule first), querying every exact host after each step
+	del := rng.Perm(len(hosts) - 1)
+	for k, j := range del {
+		if k == len(del)-1 && rng.Intn(2) == 0 {
+			break // sometimes leave one sibling
+		}
+		h := hosts[j+1]
+		w.accessDelete(row(h))
+		st.siblingDeletes++
+		if rs := w.nsRules(); len(rs) > 0 {
+			for _, r := range rs {
+				if r.Text[0] == base[0] && r.Text[1] == base[1] && r.Text[3] == h {
+					w.nsDelete(r.Text)
+					break
+				}
+			}
+		}
+		w.check(rng, st, 2, exact()...)
+		if rng.Intn(3) == 0 {
+			w.reload()
+			w.check(rng, st, 2, exact()...)
+		}
+		if rng.Intn(4) == 0 { // re-insert the sibling so that the node gets children again
+			w.accessInsert(row(h), perms[rng.Intn(len(perms))])
+			w.check(rng, st, 1, exact()...)
+		}
+	}
+	w.reload()
+	w.check(rng, st, 2, exact()...)
+}
+
 func c38(c *rig.Ctx) {
 	c.Rule("case = seeded history of 12-40 operations (insert / delete / update / save+reload) on dolt_branch_control and " +
 		"dolt_branch_namespace_control, each rule written in a random equivalent spelling (unfolded %/_ runs, case+accent variants, " +
 		"needless escapes) over the alphabet {a,A,b,e,E,é,_,%,\\}; after every operation 10 request tuples (70% instantiated from " +
 		"current rules, incl. empty strings and literal metacharacters) are decided by Access.Match / Namespace.CanCreate and by direct " +
-		"LIKE evaluation of the model rule set; distinct non-trivial = a (rule set, request) where >= 2 rules match so that the longest-pattern rule decides")
+		"LIKE evaluation of the model rule set; twice per history a family of rules that differ only in the host column, with hosts from a prefix chain " +
+		"(h, h0, h1, h10, ... or '', a, b), is inserted in random order and its siblings are deleted one by one, the exact host of every family rule being " +
+		"requested after every step and after save+reload; distinct non-trivial = a (rule set, request) where >= 2 rules match so that the longest-pattern rule decides")
 	c.Assume("character equality is the GMS per-rune weight of utf8mb4_0900_ai_ci (database, branch, host) / utf8mb4_0900_bin (user); the weight tables themselves are trusted")
 	c.Assume("'longest' is asserted only where tokens, runes and bytes of the folded pattern give the same verdict; acceptance of an INSERT/UPDATE by the table editor is taken from production")
 
@@ -937,7 +1023,11 @@ func c38(c *rig.Ctx) {
 		}
 		permChoices := []uint64{1, 2, 4, 8, 0, 2 | 4, 4 | 8}
 		nOps := 12 + rng.Intn(29)
+		famAt := map[int]bool{rng.Intn(nOps): true, rng.Intn(nOps): true}
 		for oi := 0; oi < nOps; oi++ {
+			if famAt[oi] {
+				w.bcFamilyPhase(rng, &st)
+			}
 			switch x := rng.Intn(100); {
 			case x < 30:
 				w.accessInsert(genRow(), permChoices[rng.Intn(len(permChoices))])
@@ -1008,6 +1098,9 @@ func c38(c *rig.Ctx) {
 	c.Count("c38.access.skipped_length_unit_sensitive", st.unitSens)
 	c.Count("c38.requests.with_literal_metachar", st.metachar)
 	c.Count("c38.requests.with_empty_string", st.empty)
+	c.Count("c38.family.prefix_host_families", st.families)
+	c.Count("c38.family.sibling_deletes", st.siblingDeletes)
+	c.Count("c38.family.exact_host_requests", st.exactHost)
 	c.Count("c38.requests.plain", st.plain)
 	c.Count("c38.requests.host_final_percent_matches_empty", st.tailZero)
 	c.Count("c38.namespace.comparisons", st.nsCmp)
@@ -1016,6 +1109,7 @@ func c38(c *rig.Ctx) {
 	c.Count("c38.namespace.allowed_by_longest_rule", st.nsAllowRule)
 	c.Count("c38.namespace.skipped_length_unit_sensitive", st.nsUnitSens)
 	c.Count("c38.diagnostic.visible_rows_differ_from_model", st.visibleDiff)
+	c.Require(st.families > 0 && st.siblingDeletes > 0 && st.exactHost > 0, "no prefix-host rule family / sibling delete / exact-host request exercised")
 	c.Require(st.multi > 0, "no request matched two or more access rules")
 	c.Require(st.tie > 0, "no request had two equally long longest access rules")
 	c.Require(st.ci > 0, "no match depended on the collation")
